@@ -69,7 +69,20 @@ def record_as_tuple_cases(rng, n):
         if rng.random() < 0.15 and len(comps) > 1:
             comps = comps[:-1]              # a reader that knows fewer fields
         tr = ("tup", comps)
-        c = mk(env, ("named", i), G.gen_value_d(rng, ("named", i), env, 0.8, 0), rng.choice(SUFFIXES), "xrt")
+        val = G.gen_value_d(rng, ("named", i), env, 0.8, 0)
+        if "dstr" in G.show_env(env) and rng.random() < 0.7:
+            # de-duplicated strings over a tiny alphabet that contains the names the record's header carries: the
+            # tuple reader must assign ids exactly as the record reader does
+            from .props import c09
+            names = [bytes.fromhex(G.hexname(s[1])).decode("utf-8", "replace") for dd in env if dd["kind"] == "rec"
+                     for s in dd["steps"] if s[0] in ("rem", "tra")]
+            saved = list(c09.ALPHA)
+            c09.ALPHA[:] = (names or ["z"]) + ["a", "q"]
+            try:
+                val = c09.dedup_value(rng, ("named", i), env)
+            finally:
+                c09.ALPHA[:] = saved
+        c = mk(env, ("named", i), val, rng.choice(SUFFIXES), "xrt")
         c["ty2"] = G.show_ty(tr)
         c["env2"] = c["env"]                # the reader knows the same declarations (for nested named types)
         cases.append(c)
